@@ -1,0 +1,42 @@
+//go:build verif
+
+// Contracts for package rsyncopts, checked by /verif/govc. Comments only.
+
+package rsyncopts
+
+// An option-table entry is well typed when its arg pointer has the dynamic
+// type that poptSaveInt / poptSaveArg assert for its argInfo.
+//@ spec func entryOK(tag: int, argInfo: int): bool = tag == 0 || ((mod(argInfo, 256) == 1 ==> tag == typeid("*int") - typeid("*int") + typeid("*string")) && ((mod(argInfo, 256) == 0 || mod(argInfo, 256) == 7 || mod(argInfo, 256) == 2) ==> tag == typeid("*int")))
+
+// TRUSTED: every entry of every option table is well typed. This is not
+// proved; it is validated by the exhaustive table enumeration
+// /verif/bounded/popt_table_test.go (a bounded stand-in, reported as such).
+//@ func (*rsyncopts.Context).findOption
+//@   trusted
+//@   pure
+//@   ensures result != nil ==> entryOK(tag(result.arg), result.argInfo)
+//@   ensures result != nil ==> 0 <= result.argInfo
+
+//@ func (*rsyncopts.Context).poptSaveInt
+//@   requires [argtype] typeis(opt.arg, "*int")
+//@   modifies *
+
+//@ func (*rsyncopts.Context).poptSaveArg
+//@   requires [entry] entryOK(tag(opt.arg), opt.argInfo) && tag(opt.arg) != 0 && opt.argInfo >= 0
+//@   modifies *
+
+//@ func (*rsyncopts.Context).poptGetNextOpt
+//@   modifies *
+//@   ensures [poptError] err != nil ==> typeis(err, "*rsyncopts.PoptError")
+
+// mentionsHelp(s): s contains "help" in any letter case. parseOutputWords
+// can only reach its os.Exit for such a string.
+//@ strpred mentionsHelp containsfold "help"
+
+//@ func rsyncopts.parseOutputWords
+//@   requires len(words) <= len(levels)
+//@   modifies contents(levels), rsyncos.Env.logger
+//@   mayexit if mentionsHelp(str)
+
+//@ func (*rsyncopts.Options).setOutputVerbosity
+//@   modifies rsyncopts.Options.info, rsyncopts.Options.debug, E:uint16, rsyncos.Env.logger
